@@ -27,7 +27,7 @@ Definition blocks_of (pb : QP) : Blocks :=
 
 Definition model_verdict (S : Settings) (ident : bool) (pb : QP) (st : Status) : Prop :=
   exists junk sv sv',
-    setup consts ident junk S (q_n pb) (q_p pb) (q_m pb) (blocks_of pb) = Ok sv /\
+    setup consts ident false junk S (q_n pb) (q_p pb) (q_m pb) (blocks_of pb) = Ok sv /\
     solve consts junk 0%Z (fun _ => false) sv = Ok (sv', st).
 
 Definition has_optimality_certificate (pb : QP) : Prop :=
